@@ -195,6 +195,14 @@ struct Trial {
     later_depth: u8,
 }
 
+fn trial_json_warm(plan: &Plan, cuts: &[Cut], later_depth: u8, warm: bool) -> J {
+    let mut j = trial_json(plan, cuts, later_depth);
+    if let J::Obj(v) = &mut j {
+        v.push(("earlier_unrelated_search".into(), J::Bool(warm)));
+    }
+    j
+}
+
 fn trial_json(plan: &Plan, cuts: &[Cut], later_depth: u8) -> J {
     J::obj(vec![
         ("fen", J::s(plan.p.to_fen())),
@@ -206,7 +214,25 @@ fn trial_json(plan: &Plan, cuts: &[Cut], later_depth: u8) -> J {
 }
 
 /// One trial: interrupted search(es) then a completed one, all on one engine instance.
+/// An unrelated position whose search tree (to depth d) shares no position with the tree of `p`: far more
+/// or far fewer men (a tree's positions have between men-depth and men pieces). Used as the engine's
+/// EARLIER search in a share of the trials: whatever a search of another position left in the engine —
+/// tables, counters, remembered iterations — must not leak into the position searched afterwards.
+fn unrelated_position(p: &Pos, d: u8) -> Pos {
+    let men = p.piece_count() as i64;
+    if men + d as i64 + 1 <= 26 {
+        // a middlegame position with clearly more men
+        Pos::from_fen("r3k2r/p1ppqpb1/bn2pnp1/3PN3/1p2P3/2N2Q1p/PPPBBPPP/R3K2R w KQkq - 0 1").unwrap()
+    } else {
+        Pos::from_fen("8/5pk1/6p1/8/3B4/6K1/8/8 b - - 0 1").unwrap()
+    }
+}
+
 fn run_trial(which: &str, plan: &Plan, cuts: &[Cut], later_depth: u8, st: &mut Stats) {
+    run_trial_warm(which, plan, cuts, later_depth, false, st)
+}
+
+fn run_trial_warm(which: &str, plan: &Plan, cuts: &[Cut], later_depth: u8, warm: bool, st: &mut Stats) {
     let b = eng::board_from_pos(&plan.p);
     let legal = plan.p.legal_moves();
     let mut probes: Vec<Board> = legal.iter().take(6).map(|m| Board::new(&plan.p.make(m).to_fen())).collect();
@@ -214,7 +240,7 @@ fn run_trial(which: &str, plan: &Plan, cuts: &[Cut], later_depth: u8, st: &mut S
     for h in plan.hist.iter().take(6) {
         probes.push(Board::new(&h.to_fen()));
     }
-    let case = || trial_json(plan, cuts, later_depth);
+    let case = || trial_json_warm(plan, cuts, later_depth, warm);
     let _guard = crate::report::guard_case(
         HANG_CPU_LIMIT_S,
         which == "C07",
@@ -223,6 +249,22 @@ fn run_trial(which: &str, plan: &Plan, cuts: &[Cut], later_depth: u8, st: &mut S
         case(),
     );
     let mut s = Searcher::new();
+    if warm {
+        // an earlier, completed search of an unrelated position to the same depth on this engine
+        let q = unrelated_position(&plan.p, plan.d);
+        let qb = eng::board_from_pos(&q);
+        s.verif_timer().hard_cap = Some(20_000_000);
+        let r = {
+            let s = &mut s;
+            engine_call(|| s.find_best_move(&qb, plan.d, None))
+        };
+        if r.is_err() {
+            st.bump("skipped_earlier_unrelated_search_panicked");
+            return;
+        }
+        st.bump("trials_after_an_earlier_search_of_an_unrelated_position");
+        s.clear_positions();
+    }
     push_history(&mut s, &plan.hist);
     let before = history_view(&s, &probes);
     let total = *plan.nodes.last().unwrap();
@@ -476,13 +518,13 @@ pub fn spec_for(which: &str, replay: bool) -> Spec<'static> {
     if which == "C06" {
         Spec {
             level: "fault_enumeration",
-            rule: "a case is (position with recorded earlier game, depth d in 2..3 [thorough: also 4 on few-men positions], interruption point(s), depth D of the later search). The interruption point is a deterministic deadline: after L nodes for EVERY L in 1..total when the complete search has <= max_points nodes (otherwise all iteration boundaries +-2 and a stratified sample), or at the n-th deadline poll (sampled), or a REAL wall-clock budget between zero and the time the complete search takes (the engine's own clock path; which iteration it ran out in is read off the root entry left behind), or two successive interruptions (also a wall-clock one before or after a node one). After the interruption(s) the same engine instance runs a completed search to depth D (the iteration that was in flight, and d); its value class must equal the reference minimax value and its move must attain it; the history record (length and draw answers for the root, its successors and the recorded positions) must be unchanged by the interruption. Deep part: searches of 4..9 iterations (up to a few hundred thousand nodes) interrupted at every iteration boundary plus small offsets, at stratified node counts, at polls and twice in a row; only the history record is judged there (no reference value at that depth). Distinct by (position, d, cuts, D); non-trivial when at least one search was really interrupted (deadline before the end of the complete search)",
+            rule: "a case is (position with recorded earlier game, depth d in 2..3 [thorough: also 4 on few-men positions], interruption point(s), depth D of the later search). The interruption point is a deterministic deadline: after L nodes for EVERY L in 1..total when the complete search has <= max_points nodes (otherwise all iteration boundaries +-2 and a stratified sample), or at the n-th deadline poll (sampled), or a REAL wall-clock budget between zero and the time the complete search takes (the engine's own clock path; which iteration it ran out in is read off the root entry left behind), or two successive interruptions (also a wall-clock one before or after a node one). In a quarter of the trials the engine has first completed a search of an unrelated position (one whose tree shares no position with this one's) to the same depth. After the interruption(s) the same engine instance runs a completed search to depth D (the iteration that was in flight, and d); its value class must equal the reference minimax value and its move must attain it; the history record (length and draw answers for the root, its successors and the recorded positions) must be unchanged by the interruption. Deep part: searches of 4..9 iterations (up to a few hundred thousand nodes) interrupted at every iteration boundary plus small offsets, at stratified node counts, at polls and twice in a row; only the history record is judged there (no reference value at that depth). Distinct by (position, d, cuts, D); non-trivial when at least one search was really interrupted (deadline before the end of the complete search)",
             assumptions: vec![
                 "the reference rules implementation is correct (perft self-test at every run)".into(),
                 "the node/poll deadline hook stops the search exactly as an expired wall clock does: both are answered by SearchTimer::should_stop, the only place the engine asks about its deadline".into(),
                 "positions whose reference tree or quiescence exceeds the node budget are skipped and counted".into(),
             ],
-            required: if replay { vec![] } else { vec!["interrupted_searches", "later_searches_judged", "history_comparisons", "interrupted_in_iteration_1", "interrupted_in_iteration_2", "interrupted_in_iteration_3", "poll_deadline_trials", "double_interruption_trials", "interrupted_by_a_real_wall_clock_budget", "positions_enumerated_exhaustively", "deep_history_interrupted_searches", "deep_history_interrupted_in_iteration_5_or_later"] },
+            required: if replay { vec![] } else { vec!["interrupted_searches", "later_searches_judged", "history_comparisons", "interrupted_in_iteration_1", "interrupted_in_iteration_2", "interrupted_in_iteration_3", "poll_deadline_trials", "double_interruption_trials", "interrupted_by_a_real_wall_clock_budget", "trials_after_an_earlier_search_of_an_unrelated_position", "positions_enumerated_exhaustively", "deep_history_interrupted_searches", "deep_history_interrupted_in_iteration_5_or_later"] },
             exhaustive: false,
             extra: vec![],
         }
@@ -567,7 +609,8 @@ fn replay_case(which: &str, c: &J, st: &mut Stats) {
         Some(mut plan) => {
             plan.d = d.min(3).max(1);
             st.case(hash64(&(p.key(), d)), true);
-            run_trial(which, &plan, &cuts, (c.int_of("later_depth") as u8).clamp(1, plan.d), st);
+            let warm = matches!(c.get("earlier_unrelated_search"), Some(J::Bool(true)));
+            run_trial_warm(which, &plan, &cuts, (c.int_of("later_depth") as u8).clamp(1, plan.d), warm, st);
         }
         None => st.inconclusive.push("replay: the position cannot be planned (reference over budget or uninterrupted search disagrees)".into()),
     }
@@ -697,7 +740,8 @@ pub fn run(ctx: &Ctx) -> i32 {
             });
             st.case(hash64(&(plan.p.key(), plan.d, format!("{:?}", t.cuts), t.later_depth)), really);
             st.sample_tagged(&format!("{}{}{}", t.cuts.len(), matches!(t.cuts[0], Cut::Poll(_)), matches!(t.cuts[0], Cut::Wall(_))), || trial_json(plan, &t.cuts, t.later_depth));
-            run_trial(which, plan, &t.cuts, t.later_depth, &mut st);
+            let warm = which == "C06" && i % 4 == 1;
+            run_trial_warm(which, plan, &t.cuts, t.later_depth, warm, &mut st);
         }
         st
     });
